@@ -317,6 +317,72 @@ def execSwap (outGivenIn zfo : Bool) (spf : Int) (pool : PoolSt) (ticks : Ticks)
     if r.pool.liquidity < 0 ∨ r.pool.sqrtPrice < 0 ∨ r.pool.tick < CL.MinCurrentTick ∨ r.pool.tick > CL.MaxTick then none
     else some (r, fee)
 
+/-! ### executed swaps also update the spread-reward accumulator, which can fail -/
+
+/-- `updateSpreadRewardGrowthGlobal` (executed swaps only): the step's charge is scaled up (`MulTruncate`, skipped
+for factor one; an overflow is "failed to scale up spread reward charge") and, when there is active liquidity,
+divided by it.  The growth itself belongs to the accumulator state this model does not carry; only its failure
+matters here: it fails the swap. -/
+def scaleCheck (scale charge liq : Int) : Option Unit :=
+  (if scale = P18 then some charge else Dec.mulTruncate charge scale).bind fun scaled =>
+    if liq = 0 then some () else (Dec.quoTruncate scaled liq).map fun _ => ()
+
+/-- the spread charge of the step `loopBody` is about to take (same computation). -/
+def stepCharge (outGivenIn zfo : Bool) (spf limit : Int) (st : SwapSt) (ahead : Ticks) : Option Int :=
+  match ahead with
+  | [] => none
+  | (nextTick, _) :: _ => do
+    let nextSp ← tickToSqrtPrice nextTick
+    let target := if zfo then (if nextSp < limit then limit else nextSp) else (if nextSp > limit then limit else nextSp)
+    let r ← if outGivenIn then stepOutGivenIn zfo spf st.pool.sqrtPrice target st.pool.liquidity st.remaining
+            else stepInGivenOut zfo spf st.pool.sqrtPrice target st.pool.liquidity st.remaining
+    some r.spreadCharge
+
+/-- loop body of an EXECUTED swap: the amounts-only body, provided the accumulator update of this step succeeds. -/
+def loopBodyS (scale : Int) (outGivenIn zfo : Bool) (spf limit : Int) (st : SwapSt) (ahead : Ticks) :
+    Option (SwapSt × Ticks × Bool) :=
+  (stepCharge outGivenIn zfo spf limit st ahead).bind fun c =>
+    (scaleCheck scale c st.pool.liquidity).bind fun _ => loopBody outGivenIn zfo spf limit st ahead
+
+def swapLoopS (scale : Int) (outGivenIn zfo : Bool) (spf limit : Int) :
+    Nat → SwapSt → Ticks → Nat → Nat → Option (SwapSt × Nat × Nat)
+  | 0, _, _, _, _ => none
+  | fuel + 1, st, ahead, steps, crossed =>
+    if st.remaining > 1 ∧ st.pool.sqrtPrice ≠ limit then
+      match loopBodyS scale outGivenIn zfo spf limit st ahead with
+      | none => none
+      | some (st', ahead', c) => swapLoopS scale outGivenIn zfo spf limit fuel st' ahead' (steps + 1) (if c then crossed + 1 else crossed)
+    else some (st, steps, crossed)
+
+/-- `computeOutAmtGivenIn` / `computeInAmtGivenOut` with `updateAccumulators = true`. -/
+def computeSwapS (scale : Int) (outGivenIn zfo : Bool) (spf priceLimit : Int) (pool : PoolSt) (ticks : Ticks) (specified : Int) :
+    Option SwapOut := do
+  let limit ← sqrtPriceLimit priceLimit zfo
+  if zfo then (if limit > pool.sqrtPrice ∨ limit < CL.MinSqrtPriceBigDec then none else some ())
+  else (if limit < pool.sqrtPrice ∨ limit > CL.MaxSqrtPriceBigDec then none else some ())
+  let ahead := ticksAhead zfo ticks pool.tick
+  let fuel := 2 * ticks.length + CL.swapNoProgressLimit + 8
+  let (st, steps, crossed) ← swapLoopS scale outGivenIn zfo spf limit fuel
+    { remaining := specified * P18, calculated := 0, pool := pool, spreadTotal := 0, noProgress := 0 } ahead 0 0
+  if st.remaining < 0 then none else
+  if outGivenIn then do
+    let used ← Dec.sub (specified * P18) st.remaining
+    let ain ← (Dec.ceil used).bind Dec.truncateInt
+    let aout ← Dec.truncateInt st.calculated
+    some ⟨ain, aout, st.spreadTotal, st.pool, steps, crossed⟩
+  else do
+    let ain ← (Dec.ceil st.calculated).bind Dec.truncateInt
+    let got ← Dec.sub (specified * P18) st.remaining
+    let aout ← Dec.truncateInt got
+    some ⟨ain, aout, st.spreadTotal, st.pool, steps, crossed⟩
+
+/-- executed swap including the accumulator-update failure: exactly `execSwap` whenever it succeeds
+(`Props/C03.execSwapS_refines`). -/
+def execSwapS (scale : Int) (outGivenIn zfo : Bool) (spf : Int) (pool : PoolSt) (ticks : Ticks) (specified : Int) :
+    Option (SwapOut × Int) :=
+  (computeSwapS scale outGivenIn zfo spf (execPriceLimit zfo) pool ticks specified).bind fun _ =>
+    execSwap outGivenIn zfo spf pool ticks specified
+
 /-- estimate queries (`CalcOutAmtGivenIn` / `CalcInAmtGivenOut`): unbounded price limit, no state change. -/
 def estimateSwap (outGivenIn zfo : Bool) (spf : Int) (pool : PoolSt) (ticks : Ticks) (specified : Int) : Option Int :=
   (computeSwap outGivenIn zfo spf 0 pool ticks specified).map fun r => if outGivenIn then r.amountOut else r.amountIn
